@@ -85,7 +85,7 @@ class Hist:
                                      r["dump"][:300], dump(r["s"].query_ast)[:300],
                                      {"kind": "hist", "log": self.log})
                     r["dump"] = dump(r["s"].query_ast)
-            if "C16" in self.props:
+            if "C16" in self.props or "C11" in self.props:
                 self.t.contract("C16: lookup == most recent value on the derivation path")
                 for k in ("k1", "k2", "k3", "zz"):
                     got = lookup_query_metadata(r["s"], k)
@@ -134,6 +134,13 @@ class Hist:
             qmd = r["qmd"] if False else {}    # terminals start a fresh ObjectStream: see below
             qmd = self.terminal_qmd(r)
         self.log.append(desc)
+        if op in ("MetaData", "QMetaData"):
+            self.t.contract(f"{op}: ensures result.item_type == self.item_type")
+            if new.item_type != s.item_type:
+                self.t.violation(f"{op}:ensures result.item_type == self.item_type",
+                                 f"item type changed from {s.item_type} to {new.item_type} by {desc}",
+                                 " ; ".join(self.log), repr(s.item_type), repr(new.item_type),
+                                 {"kind": "hist", "log": self.log})
         if self.total_calls() != before and "C12" in self.props:
             self.t.violation("builders:calls_executor == false", "an executor ran while a query "
                              "was being built", " ; ".join(self.log), 0, self.total_calls() - before,
@@ -148,6 +155,36 @@ class Hist:
 
     def expected_sent(self, s):
         return spec_md.drop_empty_metadata(copy.deepcopy(s.query_ast))
+
+    def twin_without_qmd(self, i):
+        """Re-build stream i's chain on a fresh data set skipping every QMetaData step."""
+        import re
+        steps = {}
+        for l in self.log:
+            m = re.match(r"s(\d+)=s(\d+)\.(\w+)\((.*)\)$", l)
+            if m:
+                steps[int(m.group(1))] = (int(m.group(2)), m.group(3), m.group(4))
+        chain = []
+        k = i
+        while k in steps:
+            chain.append(steps[k])
+            k = steps[k][0]
+        root_desc = self.streams[k]["desc"]
+        ds = self.DS("twin", self.Event if "typed=True" in root_desc else Any)
+        cur = ds
+        for parent, op, arg in reversed(chain):
+            if op == "QMetaData":
+                continue
+            if op in ("Select", "Where", "SelectMany"):
+                cur = getattr(cur, op)(arg.split(":", 1)[1])
+            elif op == "MetaData":
+                cur = cur.MetaData(ast.literal_eval(arg))
+            else:
+                cur = {"AsAwkwardArray": lambda: cur.AsAwkwardArray(["c"]),
+                       "AsPandasDF": lambda: cur.AsPandasDF("c"),
+                       "AsROOTTTree": lambda: cur.AsROOTTTree("f.root", "t", ["c"]),
+                       "AsParquetFiles": lambda: cur.AsParquetFiles("f.pq", ["c"])}[op]()
+        return cur
 
     def op_value(self, i, mode, title):
         r = self.streams[i]
@@ -177,6 +214,20 @@ class Hist:
                 outcome = ("ok", s.value(title=title))
         except RuntimeError as ex:
             outcome = ("raised", str(ex))
+        if "C16" in self.props and mode == "own" and ds.calls[before[id(ds)]:]:
+            from func_adl.ast.ast_hash import calc_ast_hash
+            self.t.contract("C16: executor AST / dump / hash identical to the chain without QMetaData")
+            sent = ds.calls[before[id(ds)]:][0][0]
+            try:
+                twin = self.twin_without_qmd(i)
+                tw = spec_md.drop_empty_metadata(copy.deepcopy(twin.query_ast))
+                if ast.dump(sent) != ast.dump(tw) or calc_ast_hash(sent) != calc_ast_hash(tw):
+                    self.t.violation("QMetaData:ensures fields(result.query_ast) == fields(self.query_ast)",
+                                     f"query sent for {desc} differs from the same chain built "
+                                     "without QMetaData", " ; ".join(self.log), ast.unparse(tw),
+                                     ast.unparse(sent), {"kind": "hist", "log": self.log})
+            except (ValueError, KeyError, IndexError):
+                pass
         if "C12" in self.props:
             self.t.contract("C12: exactly one executor, once, with the stream's query")
             hist = " ; ".join(self.log)
@@ -238,7 +289,7 @@ def random_history(t, props, n_steps, rng):
                 # derive from a stream that is still a sequence stream (not a terminal)
                 cands = [k for k, r in enumerate(h.streams) if "As" not in r["desc"].split("=")[-1][:12]]
                 i = rng.choice(cands)
-                h.op_derive(i, op, rng.randrange(12), rng.randrange(2))
+                h.op_derive(i, op, rng.randrange(12), rng.randrange(2) if "C11" in props else 0)
         except (ValueError, AssertionError, TypeError, KeyError, AttributeError) as ex:
             # a designed refusal (e.g. Where on a non-boolean lambda for this item type) ends the
             # step; anything else would show up in the other properties
@@ -308,10 +359,10 @@ def concurrent_history(t, props, rng, n=3):
 def directed_histories(t, props):
     """Exhaustive small histories: two roots (typed / untyped in both orders) x every lambda given
     as ONE shared ast.Lambda object or as a source string to both, then executed."""
-    for typed_first in (True, False):
+    for typed_first in (False, True):
         for op in ("Select", "Where", "SelectMany"):
             for k in range(len(LAMBDAS[op])):
-                for how in (0, 1):
+                for how in ((0, 1) if "C11" in props else (0,)):
                     h = Hist(t, props)
                     a = h.op_new(typed_first)
                     b = h.op_new(not typed_first)
@@ -328,8 +379,31 @@ def directed_histories(t, props):
                     t.case("hist:" + " ; ".join(h.log), True, sample=" ; ".join(h.log)[:300])
 
 
+def directed_qmd(t, props):
+    """C16: all ordered pairs of QMetaData dictionaries, consecutive or separated by an operator,
+    on a root and on a derived stream, with a sibling branch."""
+    import itertools
+    for (a, da), (b, db) in itertools.product(enumerate(QMDS), repeat=2):
+        for between in (None, "Select", "MetaData"):
+            for on_root, typed in ((True, False), (False, False), (True, True), (False, True)):
+                h = Hist(t, props)
+                r = h.op_new(typed)
+                base = r if on_root else h.op_derive(r, "Select", 0, 0)
+                x = h.op_derive(base, "QMetaData", a, 0)
+                sib = h.op_derive(base, "Where", 0, 0)
+                y = x if between is None else h.op_derive(x, between, 1, 0)
+                z = h.op_derive(y, "QMetaData", b, 0)
+                fin = h.op_derive(z, "Select", 1, 0) if on_root else z
+                h.op_derive(sib, "QMetaData", (a + 1) % len(QMDS), 0)
+                h.op_value(z, "own", None)
+                h.op_value(fin, "own", None)
+                t.case("hist:" + " ; ".join(h.log), True, sample=" ; ".join(h.log)[:300])
+
+
 def run_histories(t, props):
     directed_histories(t, props)
+    if "C16" in props:
+        directed_qmd(t, props)
     rng = t.rng
     quick = t.tier == "quick"
     n_hist = 150 if quick else 1500
